@@ -1110,7 +1110,16 @@ def run_test(ctx: FunctionContext) -> TestResult:
                 query=ex.path.to_smt2(args),
                 solving_ctx=ctx.solving_ctx,
             )
-            solver_output = solve_low_level(path_ctx)
+            try:
+                solver_output = solve_low_level(path_ctx)
+            except Exception as e:
+                # early exit may shut the solver executor down while we are still exploring
+                if is_benign_solving_error(e):
+                    if args.debug:
+                        print("aborting path exploration, executor has been shutdown")
+                    break
+                raise
+
             if solver_output.result != unsat:
                 stuck.append((path_id, ex, ex.context.get_stuck_reason()))
                 if args.print_blocked_states:
